@@ -406,7 +406,12 @@ func convTypeToTarget(source interface{}, target reflect.Type) (interface{}, err
 	switch target.Kind() {
 	case reflect.Interface:
 		return source, nil
-	case reflect.Array, reflect.Slice:
+	case reflect.Array:
+		if source != nil && reflect.TypeOf(source) == target {
+			return source, nil
+		}
+		return nil, fmt.Errorf("convTypeToTarget %T not conv to %v", source, target)
+	case reflect.Slice:
 		return convArrayTypeToTarget(source, target)
 	case reflect.Struct:
 		return convStructToTarget(source, target)
